@@ -481,7 +481,7 @@ Do(r, m, s, e) ==
 
 E0 == [m |-> "", dt |-> "", k |-> "", form |-> "", sp |-> "", id |-> "", idok |-> TRUE,
        idlen |-> 1, at |-> "", count |-> 0, bytes |-> <<>>, n |-> 0, more |-> FALSE,
-       v |-> 0, mt |-> "", mtok |-> TRUE, ct |-> 0, multi |-> FALSE, cmtok |-> TRUE]
+       v |-> 0, mt |-> "", mtok |-> TRUE, ct |-> 0, multi |-> FALSE, pok |-> TRUE]
 
 KeyMethods == {"OnBoolean","OnTrue","OnFalse","OnPositiveInt","OnNegativeInt","OnInt",
                "OnBigInt","OnUID","OnTime"}
@@ -507,9 +507,13 @@ Step(s, e) ==
     [] m = "OnPadding"       -> Do(CurRule(s), "pad", s, e)
     [] m = "OnComment"       -> (* ValidateComment first: contents expressible (UTF-8, no line break in a  *)
                                 (* single-line comment, balanced delimiters in a multi-line one)             *)
-                                IF ~e.cmtok THEN Fail(s, "array") ELSE Do(CurRule(s), "comment", s, e)
+                                IF ~e.pok THEN Fail(s, "array") ELSE Do(CurRule(s), "comment", s, e)
     [] m = "OnNull"          -> real("null")
-    [] m \in KeyMethods      -> IF e.sp = "nil" THEN real("null") ELSE real("key")
+    [] m \in KeyMethods      -> (* nil big integers and the zero time value are null; a time whose   *)
+                                (* fields are out of range (ValidateTime) is refused before any rule *)
+                                IF e.sp = "nil" THEN real("null")
+                                ELSE IF m = "OnTime" /\ ~e.pok THEN Fail(s, "array")
+                                ELSE real("key")
     [] m \in FloatMethods    -> IF e.sp = "nil" THEN real("null") ELSE real("nonkey")
     [] m = "OnNan"           -> real("nonkey")
     [] m = "OnList"          -> real("list")
